@@ -341,7 +341,7 @@ pub fn hex(b: &[u8]) -> String {
 pub fn check(rep: &Reporter) {
 	let thorough = rep.tier.thorough();
 	rep.set_rule(
-		"messages = REQ (21 id forms × 12 methods incl. every handler kind, unknown, empty, escaped spelling, non-string × 11 params × 5 versions; plus all 24 member orders × 5 extra members incl. duplicates × {0,1,127} leading whitespace bytes on a sub-product) ∪ TOK (all token strings of length ≤5 (thorough 6) over 14 tokens starting with { or [) ∪ MUT (delete/duplicate/replace-by-15-bytes/truncate at every position of 5 (thorough 12) base requests) ∪ BYTES (all strings of ≤2 bytes (quick: a dense subset of the 2-byte ones), every single-byte replacement in 2 (thorough 6) bases); each distinct byte string is sent over HTTP and over a fresh WebSocket connection followed by a sentinel call; all frames until close are collected; the REQ product in canonical order (quick: version 2.0 only) and TOK ≤ 3 additionally travel through Server::start over loopback TCP (raw HTTP/1.1 keep-alive connection resp. soketto client), judged by the same classifier. Oracle = independent classifier on a duplicate-preserving JSON tree. Distinct by byte string; every case is non-trivial (it is executed on both transports).",
+		"messages = REQ (21 id forms × 12 methods incl. every handler kind, unknown, empty, escaped spelling, non-string × 11 params × 5 versions; plus all 24 member orders × 5 extra members incl. duplicates × {0,1,127} leading whitespace bytes on a sub-product) ∪ TOK (all token strings of length ≤5 (thorough 6) over 14 tokens starting with { or [) ∪ MUT (delete/duplicate/replace-by-15-bytes/truncate at every position of 5 (thorough 12) base requests) ∪ BYTES (all strings of ≤2 bytes (quick: a dense subset of the 2-byte ones), every single-byte replacement in 2 (thorough 6) bases); each distinct byte string is sent over HTTP and over a fresh WebSocket connection followed by a sentinel call; all frames until close are collected; the REQ product in canonical order (quick: version 2.0 only) and TOK ≤ 3 additionally travel through Server::start over loopback TCP (raw HTTP/1.1 keep-alive connection resp. soketto client), bare and behind the built-in RPC logger middleware (quick: the logger for TOK and the params-less REQ messages), judged by the same classifier. Oracle = independent classifier on a duplicate-preserving JSON tree. Distinct by byte string; every case is non-trivial (it is executed on both transports).",
 	);
 	rep.assume("`null` params are 'no params'; ASCII form feed counts as leading whitespace (the library's sniffing window uses is_ascii_whitespace)");
 	let cases = cases(thorough);
@@ -375,7 +375,12 @@ pub fn check(rep: &Reporter) {
 		par_for(rep, fam.len(), 8, srv::rt, |i, rt, local| {
 			let (g, msg) = &fam[i];
 			let _e = rt.enter();
-			tcp_case(rep, local, rt, g, msg, BatchRequestConfig::Unlimited);
+			tcp_case(rep, local, rt, g, msg, BatchRequestConfig::Unlimited, false);
+			// with the RPC logger middleware: every TOK string; of the REQ product every message in the thorough tier, in
+			// the quick tier those without a params member
+			if *g == "tcp-tok" || thorough || !msg.windows(8).any(|w| w == b"\"params\"") {
+				tcp_case(rep, local, rt, g, msg, BatchRequestConfig::Unlimited, true);
+			}
 		});
 	}
 	// SCHED leg (configuration: message_buffer_capacity 1–2, pipelined calls)
@@ -480,14 +485,26 @@ fn tok_len(m: &[u8]) -> usize {
 /// One message through a real `Server` over loopback: HTTP (message, then the sentinel on the same keep-alive
 /// connection) and WebSocket (message, sentinel; after the sentinel's reply the server is stopped and everything until
 /// the close is collected).
-pub async fn tcp_roundtrips(msg: &[u8], log: srv::InvLog, cfg: jsonrpsee_server::ServerConfig) -> Result<(srvref::Observed, srvref::Observed), String> {
+pub async fn tcp_roundtrips(msg: &[u8], log: srv::InvLog, cfg: jsonrpsee_server::ServerConfig, middleware: bool) -> Result<(srvref::Observed, srvref::Observed), String> {
 	use tokio::io::AsyncWriteExt;
 	use tokio_util::compat::TokioAsyncReadCompatExt;
 	let listener = std::net::TcpListener::bind("127.0.0.1:0").map_err(|e| format!("bind: {e}"))?;
 	listener.set_nonblocking(true).map_err(|e| e.to_string())?;
 	let addr = listener.local_addr().map_err(|e| e.to_string())?;
-	let server = jsonrpsee_server::Server::builder().set_config(cfg).build_from_tcp(listener).map_err(|e| format!("build: {e}"))?;
-	let handle = server.start(srv::std_module(log.clone()));
+	// `middleware`: the built-in RPC logger (truncating at 16 bytes, so that truncation paths run) below an HTTP layer
+	// stack that does nothing; replies must be byte-for-byte what the bare server sends
+	let handle = if middleware {
+		let server = jsonrpsee_server::Server::builder()
+			.set_config(cfg)
+			.set_rpc_middleware(jsonrpsee_server::middleware::rpc::RpcServiceBuilder::new().rpc_logger(16))
+			.set_http_middleware(tower::ServiceBuilder::new().layer(tower::layer::util::Identity::new()))
+			.build_from_tcp(listener)
+			.map_err(|e| format!("build: {e}"))?;
+		server.start(srv::std_module(log.clone()))
+	} else {
+		let server = jsonrpsee_server::Server::builder().set_config(cfg).build_from_tcp(listener).map_err(|e| format!("build: {e}"))?;
+		server.start(srv::std_module(log.clone()))
+	};
 	// ---- HTTP
 	let mut http = srvref::Observed { replies: vec![], notifications: vec![], handlers: vec![], sentinel_ok: false, http_status: None, problem: None };
 	{
@@ -657,17 +674,17 @@ pub async fn read_response(io: &mut tokio::net::TcpStream) -> Option<(u16, Vec<u
 
 
 /// Deliver `msg` through a real `Server` over loopback (with this batch configuration) and judge it like any other case.
-pub fn tcp_case(rep: &Reporter, local: &mut Local, rt: &tokio::runtime::Runtime, gen_name: &str, msg: &[u8], batch: BatchRequestConfig) {
+pub fn tcp_case(rep: &Reporter, local: &mut Local, rt: &tokio::runtime::Runtime, gen_name: &str, msg: &[u8], batch: BatchRequestConfig, middleware: bool) {
 	let mut attempt = 0;
 	loop {
 		attempt += 1;
 		let log: srv::InvLog = Default::default();
-		let r = rt.block_on(tcp_roundtrips(msg, log, srv::cfg_builder().set_batch_request_config(batch).build()));
+		let r = rt.block_on(tcp_roundtrips(msg, log, srv::cfg_builder().set_batch_request_config(batch).build(), middleware));
 		match r {
 			Ok((h, w)) => {
 				let mut h = Some(h);
 				let mut w = Some(w);
-				run_case_with(rep, local, gen_name, msg, batch, "tcp:", |t| match t {
+				run_case_with(rep, local, gen_name, msg, batch, if middleware { "tcp+middleware:" } else { "tcp:" }, |t| match t {
 					Transport::Http => h.take().unwrap(),
 					Transport::Ws => w.take().unwrap(),
 				});
